@@ -40,10 +40,13 @@ CHECKS = {
              "ordinary and critical reads with (offset, limit) aimed at EOF, 2048 and 64 KiB multiples, limit 0 and limits up to 2^31-1, interleaved with other requests; "
              "every reply is compared with the harness's own pread of the file (announced count == min(limit, max(0,size-offset)), bytes equal, critical reads: exact bytes or "
              "correct prefix then end of connection). non-trivial = a read that crosses/touches EOF, or has an edge within 2 bytes of a 2048/65536 multiple, or offset >= 4 GiB, "
-             "or a non-plain object; distinct by (object kind, command, size, offset, limit)",
+             "or a non-plain object; distinct by (object kind, command, size, offset, limit). unit objects: the same read geometries over the network against a generated image "
+             "(***DVD***/***PS3***; expected bytes = the library's canonical image under the C18 mask, announced size must equal its length) and against decrypted views (PS3ISO + .dkey, "
+             "3k3y; expected bytes = reference plaintext), with both read commands",
         assumptions=[INPROC, "bytes transferred per read are capped at 8 MiB (limits up to 2^31-1 are exercised where the file is smaller)"],
         units=[
             dict(test="TestC02Plain", unit="plain", kind="rapid", checks=(1600, 40000), shards=(8, 16)),
+            dict(test="TestC02Objects", unit="objects", kind="rapid", checks=(800, 20000), shards=(8, 16)),
         ],
     ),
     "C09": dict(
